@@ -108,6 +108,15 @@ class Prop:
                 for c in bad[:20]:
                     ctx.disagreements.append({"input": c.full(), "implementation": c.result["raw"][:600],
                                               "model": shown.get(c.id, "model evaluation failed" if c.agree is None else "?")})
+                if getattr(self, "model_is_reference", False):
+                    # for conformance properties the Gallina specification IS the reference the property names:
+                    # a disagreement is a concrete failing input
+                    for c in bad[:10]:
+                        if c.agree is False:
+                            ctx.violations.append({"input": c.full(),
+                                                   "expected": "the value the Gallina transcription of the documented format / RFC prescribes: %s"
+                                                               % str(shown.get(c.id, "(not shown)"))[:600],
+                                                   "observed": c.result["raw"][:600], "finding_key": None})
                 ctx.broken.append({"kind": "correspondence",
                                    "what": "correspondence %s: model and implementation differ on %d of %d cases%s"
                                            % (ctx.pid, len(bad), len(cases), (" [" + log[-200:] + "]") if log else "")})
@@ -576,6 +585,7 @@ def frozen_corpus_cases(ctx):
 
 class C06(Prop):
     id = "C06"
+    model_is_reference = True
     rule = ("cases: exact output bytes of key/password encryption (injected ephemeral, payload key, salt) compared with "
             "the Gallina transcription of the documented format over the RFC specifications, under all read partitions "
             "at small chunk sizes and selected schedules at 65536; Noise-AEAD nonce layout at counters across the 64-bit "
@@ -796,6 +806,7 @@ class C10(Prop):
 
 class C19(Prop):
     id = "C19"
+    model_is_reference = True
     rule = ("cases: each exported primitive vs its Gallina RFC specification: AEAD seal/open over plaintext lengths x AAD "
             "lengths at block boundaries (thorough: all 0..130 x 0..40), single-bit flips of ciphertext/tag/nonce/key/AD "
             "(must be rejected), X25519 on RFC vectors, low-order and non-canonical points and random pairs (symmetry), "
